@@ -43,6 +43,7 @@ func (fr *frame) call(c *ssa.Call) Val {
 		return fr.builtin(b.Name(), c, args)
 	}
 	var callee *ssa.Function
+	var free []Val
 	if com.IsInvoke() {
 		recv := fr.eval(com.Value)
 		if recv.K == KIface {
@@ -59,7 +60,10 @@ func (fr *frame) call(c *ssa.Call) Val {
 			fv := fr.eval(com.Value)
 			if fv.K == KFunc {
 				callee = fv.Fn
+				free = fv.Elems
 			}
+		} else if mc, ok := com.Value.(*ssa.MakeClosure); ok {
+			free = fr.eval(mc).Elems
 		}
 	}
 	named := func(name string) Val {
@@ -161,7 +165,7 @@ func (fr *frame) call(c *ssa.Call) Val {
 	collect := fr.in.collect
 	var out Outcome
 	hit := false
-	if rec := fr.callMemo[c]; rec != nil && !collect && len(rec.args) == len(args) {
+	if rec := fr.callMemo[c]; rec != nil && !collect && len(rec.args) == len(args) && len(free) == 0 {
 		hit = true
 		for i := range args {
 			if args[i].K != rec.args[i].K || args[i].Dep != rec.args[i].Dep || !equalVal(args[i], rec.args[i]) {
@@ -176,7 +180,9 @@ func (fr *frame) call(c *ssa.Call) Val {
 	}
 	if !hit {
 		entry := fr.share()
+		fr.in.pendingFree = free
 		out = fr.in.run(callee, args, nil, nil, entry, ctx)
+		fr.in.pendingFree = nil
 		if !collect && out.Frame != nil {
 			fr.callMemo[c] = &callRec{args: args, entry: entry, out: out}
 		}
